@@ -140,7 +140,8 @@ def gen_case(rng, focus, big=False):
     case['runs'] = runs
     if nruns > 1 and rng.random() < 0.4:
         case['reuse'] = True      # the same Scheduler object schedules every run
-    elif nruns > 1 and not case.get('stages') and rng.random() < 0.4:
+    elif nruns > 1 and not case.get('stages') and focus != 'C04' and rng.random() < 0.4:
+        # (not for C04: re-running is about the same job, edges do not change between runs)
         case['reuse'] = 'backend'  # the same backend object serves a new Scheduler with other edges
         for run in runs[1:]:
             run['hard'], run['soft'] = gen_graph(rng, n)
@@ -310,6 +311,10 @@ def oracle_c01(ctx, case, run):
                 ctx.oracle_failure(f'task t{t} started while its dependency t{d} is '
                                    f'{None if ob is None else ob[0]} :: {brief(case)}',
                                    replay_case(case, run), key='start-before-dep-final')
+            elif ob[0] == 'DONE' and len(ob) > 5 and ob[5] is not None and ob[4] != ob[5]:
+                ctx.oracle_failure(f'task t{t} started but the part of the update of its DONE dependency t{d} '
+                                   f'filed under t{t} is not readable (found {ob[4]}, expected {ob[5]}) '
+                                   f':: {brief(case)}', replay_case(case, run), key='start-before-publication')
             elif ob[0] == 'DONE' and (ob[1] != ob[3] or not ob[2]):
                 ctx.oracle_failure(f'task t{t} started while DONE dependency t{d} has not published '
                                    f'its update/clocks (payload {ob[1]}, expected {ob[3]}, clocks {ob[2]}) '
